@@ -104,4 +104,71 @@ PROPS = {
             "transform_negated_joins only on alias-free trees without double negations",
         ],
     ),
+    "C04": dict(
+        flavour="asan",
+        level="exploration",
+        harnesses=["c04_em_basic", "c04_em_data"],
+        quick=dict(shards=8, cases=40000, min_nontrivial=1000),
+        thorough=dict(shards=8, cases=1000000, fuzz_s=600, fuzz_jobs=8, fuzz_max_len=64, min_nontrivial=1000),
+        assumptions=COMMON_ASSUME + [
+            "models are constructed as their unit tests construct them (public API) for 8 elements H..U / 7 materials / 28 cut values; "
+            "data-driven models only for the bundled Z (Livermore PE Z=19, Seltzer-Berger Z=29, CHIPS He/Cu)",
+            "applicability end points 0 and infinity are replaced by 1e-6 and 1e8 MeV; momentum tolerance 1e-7 p_in "
+            "(floor set by rotate()'s sqrt(1-z^2) angular resolution)",
+            "a draw-count bound is reported only if three independent streams exceed it",
+        ],
+    ),
+    "C09": dict(
+        flavour="asan",
+        level="exploration",
+        harnesses=["c09_construct"],
+        quick=dict(shards=16, cases=700, min_nontrivial=1000),
+        thorough=dict(shards=16, cases=30000, fuzz_s=900, fuzz_jobs=16, fuzz_max_len=800, min_nontrivial=1000),
+        assumptions=COMMON_ASSUME + [
+            "models are valid by construction (first-match partition of cutting objects; finite unit boundaries); "
+            "membership oracle written from the class documentation only; points within 4 tol of any face on the way are not judged",
+            "arrays, involutes, overlapping daughters and non-convex unit boundaries are not generated",
+        ],
+    ),
+    "C12": dict(
+        flavour="asan",
+        level="exploration",
+        harnesses=["c12_surf", "c12_xform"],
+        quick=dict(shards=8, cases=40000, min_nontrivial=1000, per_harness={"c12_xform": dict(cases=25000)}),
+        thorough=dict(shards=8, cases=2000000, fuzz_s=600, fuzz_jobs=8, fuzz_max_len=256, min_nontrivial=1000),
+        assumptions=COMMON_ASSUME + [
+            "tolerances are K*eps*(sum of |terms| the code adds) with K = 256 (surfaces) / 64 (transforms); documented fuzzy zones "
+            "(|a| < 1e-10 'along surface', near-tangent, on-surface state) are modelled explicitly",
+            "involute tolerances follow InvoluteSolver.hh (r_b*1e-8 convergence, r_b*1e-6 on-state floor)",
+        ],
+    ),
+    "C01": dict(
+        flavour="asan",
+        level="exploration",
+        harnesses=["c01_energy"],
+        quick=dict(shards=16, cases=220, min_nontrivial=500),
+        thorough=dict(shards=16, cases=12000, fuzz_s=600, fuzz_jobs=16, fuzz_max_len=640, min_nontrivial=500),
+        assumptions=COMMON_ASSUME + [
+            "physics data are synthetic ImportData pushed through the production construction path (no Geant4 tables offline): "
+            "Klein-Nishina, Bethe-Heitler, Moller-Bhabha, e+ annihilation with generated lambda/dE/dx/range tables, Urban MSC, "
+            "plus a harness photon-absorption process standing in for the photoelectric effect",
+            "tables respect what the importer produces: lambda grids start at the model's minimum primary energy with zero cross section there; "
+            "range = integral of 1/(dE/dx); the integral-approach option is left on",
+            "events whose Stepper-call budget (20000) or initializer capacity is exhausted are counted, not judged (C02 / C16)",
+            "ledger tolerance 1e-11 relative per track and per event",
+        ],
+    ),
+    "C05": dict(
+        flavour="asan",
+        level="exploration",
+        harnesses=["c05_steps"],
+        quick=dict(shards=16, cases=220, min_nontrivial=300),
+        thorough=dict(shards=16, cases=12000, fuzz_s=600, fuzz_jobs=16, fuzz_max_len=640, min_nontrivial=300),
+        assumptions=COMMON_ASSUME + [
+            "same synthetic problems as C01; harness snapshot actions at user_start/user_pre/user_post are read-only",
+            "displacement <= length is judged exactly without field, with slack delta_intersection + epsilon_rel_max*length in a field "
+            "(documented FieldPropagator caveats) and not judged for field + MSC (lateral displacement is applied about the initial direction)",
+            "volumes are compared with the independent locator only at points farther than 8*delta from every surface",
+        ],
+    ),
 }
